@@ -166,6 +166,11 @@ RestartOKStep(gh, before, after, ev) ==
         /\ after[ev.n].term >= gh.maxTerm[ev.n]
         /\ \A g \in gh.grants : (g[1] = ev.n /\ g[2] = after[ev.n].term) => after[ev.n].vote = g[3]
 
+\* ---- end of a recorded run: every node was shut down; tasks and (after a fair, fault-free continuation) convergence
+IsFinal(ev) == "kind" \in DOMAIN ev /\ ev.kind = "final"
+AllTasksCompleteStep(ev) == IsFinal(ev) => Len(ev.pending) = 0
+ConvergesStep(ev) == ("kind" \in DOMAIN ev /\ ev.kind = "fairCheck") => ev.converged
+
 StepViolations(gh, before, after, ev, T) ==
        (IF CommittedStableStep(gh, before, after, T) THEN {} ELSE {"C02_CommittedStable"})
   \cup (IF LeaderAppendOnlyStep(before, after, T) THEN {} ELSE {"C04_LeaderAppendOnly"})
@@ -174,6 +179,8 @@ StepViolations(gh, before, after, ev, T) ==
   \cup (IF GrantDurableStep(after, ev) THEN {} ELSE {"C05_GrantDurable"})
   \cup (IF LeaderStickinessStep(before, after, ev) THEN {} ELSE {"C17_LeaderStickiness"})
   \cup (IF RestartOKStep(gh, before, after, ev) THEN {} ELSE {"C10_RestartOK"})
+  \cup (IF AllTasksCompleteStep(ev) THEN {} ELSE {"C15_AllTasksComplete"})
+  \cup (IF ConvergesStep(ev) THEN {} ELSE {"C17_Converges"})
   \cup (IF ConfigOnlyWhenSafeStep(ev) THEN {} ELSE {"C08_ConfigOnlyWhenSafe"})
   \cup (IF PromoteAfterRoundStep(ev) THEN {} ELSE {"C11_PromoteAfterRound"})
   \cup (IF StopOnlyWhenRemovedStep(ev) THEN {} ELSE {"C11_StopOnlyWhenRemoved"})
